@@ -49,7 +49,9 @@ def one(name):
 
 
 def main():
-    names = sys.argv[1:] or sorted(os.listdir(os.path.join(VERIF, 'seeded')))
+    update = '--update-meta' in sys.argv
+    args = [a for a in sys.argv[1:] if not a.startswith('--')]
+    names = args or sorted(os.listdir(os.path.join(VERIF, 'seeded')))
     with ProcessPoolExecutor(max_workers=16) as ex:
         results = list(ex.map(one, names))
     missed = 0
@@ -59,6 +61,13 @@ def main():
             continue
         ok = pid in det
         missed += 0 if ok else 1
+        if update:
+            mp = os.path.join(VERIF, 'seeded', name, 'meta.json')
+            meta = json.load(open(mp))
+            meta['checks_reporting_violation'] = det
+            meta['checks_undecided'] = und
+            meta['detected_for_target_property'] = ok
+            json.dump(meta, open(mp, 'w'), indent=1)
         print(f'{name:50s} {"DETECTED" if ok else "MISSED  "} target={pid} {det}' + (f' undecided={und}' if und else ''))
     print(f'{len(results) - missed}/{len(results)} seeded changes detected for their target property')
     return 1 if missed else 0
